@@ -5,7 +5,7 @@
    (PathMatcher, SmarterPathSplitter), Res/Replacement.v (replacement.Filter).
    External behaviour enters as parameters: [parse] (regexp.Compile: pattern text -> AST),
    [lsel] (k8s label selectors), [enc] (go-yaml emitter), [cluster_scoped] (openapi). *)
-From KV Require Import Base.Regex Base.RegexProofs Yaml.Match Yaml.MatchProofs Yaml.MatchTotalProofs Yaml.MatchCreateProofs Yaml.MatchFrameProofs Yaml.MatchDisjointProofs
+From KV Require Import Base.Regex Base.RegexProofs Yaml.Match Yaml.MatchProofs Yaml.MatchTotalProofs Yaml.MatchCreateProofs Yaml.MatchFrameProofs Yaml.MatchDisjointProofs Yaml.MatchSelProofs
   Res.PatchSelect Res.PatchSelectProofs Res.Image Res.ImageProofs Res.ImageNormProofs Res.ImageParseProofs Res.ImageClosedProofs Base.RegexParse Res.Selector Res.SelectorProofs Res.Replica Res.ReplicaProofs Res.ReplicaExactProofs
   Res.Replacement Res.ReplacementProofs Res.ReplacementFrameProofs.
 
@@ -485,6 +485,22 @@ Theorem C10_match_elem_partial :
       exists kvs x, nth_error es j = Some (Map kvs) /\ find_field k kvs = Some x /\ matches r (enc x) = true.
 Proof. exact pm_last_selector_spec. Qed.
 Print Assumptions C10_match_elem_partial.
+
+(* the same at ANY position of the path (no "last part" guard): below a sequence, the address j :: a is
+   returned iff entry j's field k has a text in which v finds a match and the REST of the path returns a
+   inside entry j — a list selector narrows the search to the matching entries and to nothing else *)
+Theorem C10_match_selector_exact :
+  forall parse enc nonstr (k v : string) (r : re) (rest : list string) (fuel : nat) (es es' : list node) (hs : list hit),
+    k <> "" -> parse v = Some r ->
+    split_index_name_value ("[" ++ k ++ "=" ++ v ++ "]") = Some (k, v) ->
+    classify_pm ("[" ++ k ++ "=" ++ v ++ "]") = PPSel ("[" ++ k ++ "=" ++ v ++ "]") ->
+    pm parse enc nonstr None (S fuel) (("[" ++ k ++ "=" ++ v ++ "]") :: rest) (Seq es) = Ok (Seq es', hs) ->
+    forall j a, In (HAt (j :: a)) hs <->
+      exists kvs x e' hj,
+        nth_error es j = Some (Map kvs) /\ find_field k kvs = Some x /\ matches r (enc x) = true /\
+        pm parse enc nonstr None (S fuel) rest (Map kvs) = Ok (e', hj) /\ In (HAt a) hj.
+Proof. exact pm_selector_spec. Qed.
+Print Assumptions C10_match_selector_exact.
 
 (* PathMatcher ALWAYS returns — every path, every document, with or without Create, no hypothesis
    on the selector values: the create-and-retry of doSeq is guarded (repair of
